@@ -238,4 +238,8 @@ def run(ctx):
                 ok = t1 != r1 and t2 != r2 and t1 == r2 and t2 == r1 and t1[0] == 'call' and t2[0] == 'call'
                 det = 'A.tx@%s A.rx@%s B.tx@%s B.rx@%s' % (t1[2:], r1[2:], t2[2:], r2[2:])
         R.ob('C15.forward', (ctor, 'endpoints cross-wired'), ok, 'what one endpoint sends is what the other receives (tx/rx pairs crossed), and no endpoint talks to itself', [c.loc(c.d)], det)
-    R.count('forwarders_checked', n_fw)
+    from .common import sink_delegation
+    n_del = sink_delegation(ctx, 'C15.delegate', ['serde_transport::Transport', 'transport::channel::Channel'])
+    if n_del < 6:
+        raise CannotDecide('sink delegation sites: %d (floor 6)' % n_del)
+    R.count('forwarders_checked', n_fw + n_del)
